@@ -28,6 +28,10 @@ type immutRef struct {
 	Note string `json:"note"`
 	// Written: struct type with methods -> the fields its methods write (empty: immutable after construction)
 	Written map[string][]string `json:"written"`
+	// Writers: field (Type.field) -> the functions (methods of the type, literals included) that write it
+	Writers map[string][]string `json:"writers"`
+	// Funcs: every function and function literal the families look at (one that is not listed is new)
+	Funcs []string `json:"funcs"`
 }
 
 var immutGroups = groupsOf([][]string{
@@ -45,7 +49,7 @@ func init() {
 		g := immutGroups[i]
 		register(&Rule{
 			ID: g.rule, Props: g.props, Engine: "writer-set drift against the reference tree (SSA)",
-			Text:  "what is immutable after construction stays immutable (" + strings.Join(g.pkgs, ", ") + "): in a struct type without a lock of its own, a field that none of the type's methods writes on the reference tree (so that the methods may run concurrently) is not stored into by a method of the type – for a value it did not just allocate – nor the target of an atomic Store / Add / Swap / CompareAndSwap or a map update; a field added to such a type counts as never written – a memo, a last-seen cache or a counter added to such a type is shared mutable state without a protocol",
+			Text:  "what is immutable after construction stays immutable (" + strings.Join(g.pkgs, ", ") + "): in a struct type without a lock of its own, a field that none of the type's methods writes on the reference tree (so that the methods may run concurrently) is not stored into by a method of the type – for a value it did not just allocate – nor the target of an atomic Store / Swap / CompareAndSwap (an atomic Add is a counter and fine) or a map update; a field added to such a type counts as never written; and a function that exists on the reference tree does not start writing a field of its type that it only read there (unless a former writer was inlined into it) – a memo, a last-seen cache or a counter added to such a type is shared mutable state without a protocol",
 			Floor: 1, MustExist: false, Run: func(c *Ctx) { runImmutDrift(c, g.pkgs) },
 		})
 	}
@@ -87,7 +91,7 @@ func selfWrites(p *Program, pkgs []string) ([]selfWrite, map[string]bool) {
 	var out []selfWrite
 	types_ := map[string]bool{}
 	for _, rel := range pkgs {
-		for _, tf := range p.pkgFuncs(rel) {
+		for _, tf := range p.srcFuncs(rel) {
 			T := recvNamedOfFn(tf)
 			if T == nil {
 				continue
@@ -132,7 +136,9 @@ func selfWrites(p *Program, pkgs []string) ([]selfWrite, map[string]bool) {
 							return
 						}
 						switch {
-						case strings.HasPrefix(sc.Name(), "Store"), strings.HasPrefix(sc.Name(), "Add"), strings.HasPrefix(sc.Name(), "Swap"), strings.HasPrefix(sc.Name(), "CompareAndSwap"), strings.HasPrefix(sc.Name(), "Or"), strings.HasPrefix(sc.Name(), "And"):
+						// an atomic Add on its own is a counter – a complete protocol; Store / Swap / CompareAndSwap
+						// publish a value that some other access is meant to pair with
+						case strings.HasPrefix(sc.Name(), "Store"), strings.HasPrefix(sc.Name(), "Swap"), strings.HasPrefix(sc.Name(), "CompareAndSwap"):
 						default:
 							return
 						}
@@ -171,6 +177,28 @@ func genImmutReference(repo string) error {
 	for t := range ref.Written {
 		sort.Strings(ref.Written[t])
 	}
+	ref.Writers = map[string][]string{}
+	for _, w := range ws {
+		k := w.typ + "." + w.field
+		dup := false
+		for _, f := range ref.Writers[k] {
+			if f == FuncName(w.fn) {
+				dup = true
+			}
+		}
+		if !dup {
+			ref.Writers[k] = append(ref.Writers[k], FuncName(w.fn))
+		}
+	}
+	for k := range ref.Writers {
+		sort.Strings(ref.Writers[k])
+	}
+	for _, rel := range allImmutPkgs() {
+		for _, tf := range p.srcFuncs(rel) {
+			withAnon(tf, func(g *ssa.Function) { ref.Funcs = append(ref.Funcs, FuncName(g)) })
+		}
+	}
+	sort.Strings(ref.Funcs)
 	b, _ := json.MarshalIndent(ref, "", " ")
 	return os.WriteFile(filepath.Join(refDir, "immutable.json"), append(b, '\n'), 0o644)
 }
@@ -193,7 +221,40 @@ func runImmutDrift(c *Ctx, pkgs []string) {
 	}
 	ws, all := selfWrites(c.Program, pkgs)
 	bad := map[string]bool{}
+	refFuncs := map[string]bool{}
+	for _, f := range immutRefCache.Funcs {
+		refFuncs[f] = true
+	}
+	curFuncs := map[string]bool{}
+	for _, rel := range allImmutPkgs() {
+		for _, tf := range c.srcFuncs(rel) {
+			withAnon(tf, func(g *ssa.Function) {
+				if k := refKey(g); k != "" {
+					curFuncs[k] = true
+				}
+			})
+		}
+	}
+	reportedWriter := map[string]bool{}
 	for _, w := range ws {
+		// a function that exists on the reference tree and did not write this field there
+		fk := refKey(w.fn)
+		wk := w.typ + "." + w.field
+		if writers, fieldKnown := immutRefCache.Writers[wk]; fieldKnown && fk != "" && refFuncs[fk] && !reportedWriter[fk+"|"+wk] {
+			isWriter, inlined := false, false
+			for _, f := range writers {
+				if f == fk {
+					isWriter = true
+				}
+				if !curFuncs[f] {
+					inlined = true // a writer of the reference tree is gone: its body may have moved here
+				}
+			}
+			if !isWriter && !inlined {
+				reportedWriter[fk+"|"+wk] = true
+				c.Fail(fk, "same-writers "+wk, c.Pos(w.ins.Pos()), w.what+": on the reference tree this function only reads "+wk+" (it is written by "+strings.Join(shortNames(writers), ", ")+"); a function that starts to modify state it used to leave alone changes what every other user of that state can rely on – an expiry that is pushed back by lookups, a cursor that is moved back by a failed upload")
+			}
+		}
 		fields, known := immutRefCache.Written[w.typ]
 		if !known {
 			continue // a new type
@@ -220,6 +281,17 @@ func runImmutDrift(c *Ctx, pkgs []string) {
 			c.Pass(t, "stays-immutable", "-", "no method writes a field that was not written before")
 		}
 	}
+}
+
+func shortNames(fs []string) []string {
+	var out []string
+	for _, f := range fs {
+		if i := strings.LastIndex(f, "."); i >= 0 {
+			f = f[i+1:]
+		}
+		out = append(out, f)
+	}
+	return out
 }
 
 // hasMutexField: the receiver type of fn (outermost function) has a sync.Mutex / RWMutex / Locker field.
